@@ -118,6 +118,8 @@ type State struct {
 	dead    bool
 	guards  map[string]int
 	proved  map[string]bool
+	facts   map[string]*bounds
+	infeasible bool
 	guardCount *map[string]int // shared by all paths of one function
 }
 
@@ -139,6 +141,7 @@ func (st *State) clone() *State {
 			n.proved[k] = true
 		}
 	}
+	n.facts = st.cloneFacts()
 	n.sb = &strings.Builder{}
 	n.sb.WriteString(st.sb.String())
 	n.checks = append([]Check(nil), st.checks...)
@@ -181,6 +184,9 @@ func (st *State) assume(term string) {
 		return
 	}
 	st.emit("(assert %s)", term)
+	if !st.learn(term) {
+		st.infeasible = true
+	}
 }
 
 func (st *State) check(ob, term, note string) {
